@@ -50,6 +50,7 @@ def cases(tier, seed):
 
 def monitor(spec, res, acc):
     tr = res.trace
+    tr.user_spec = spec
     base.check_initial_pond(spec, tr, acc)
     cov = acc.cov
     wl = base.weather_lookup(res.kw)
